@@ -1,516 +1,411 @@
 package main
 
-// C12: analysis of worker goroutines (runner / inner-manager / closer) and of
-// the collector side (counts, filter, join).
+// C12: goroutine bodies (runner / inner-manager / closer workers), explored
+// with virtual inlining; and the error-knowledge helpers shared with the
+// collectors.
 
 import (
-	"fmt"
 	"go/token"
 	"sort"
 
 	"golang.org/x/tools/go/ssa"
 )
 
-// c12WorkerResult is what the path analysis of one goroutine body found.
-type c12WorkerResult struct {
-	Tasks    []*ssa.Call // calls of the task
-	Sends    []*ssa.Send // sends on the result channel
-	Problems []string    // violations (deduplicated, sorted)
+type c12WorkerKind int
+
+const (
+	wkRunner  c12WorkerKind = iota // task = element of RunnerManager runners; must cancel
+	wkInner                        // task = RunnerManager.Run of the inner manager
+	wkCloser                       // task = element of the closers
+	wkFixture                      // fixture: task = element of a given field, no cancel, no filter
+)
+
+// c12WorkerSum is what the exploration of one goroutine body found.
+type c12WorkerSum struct {
+	Fn       *ssa.Function
+	Name     string
+	Kind     c12WorkerKind
+	TaskVals []ssa.Value // spawner-side values that carry the task (element loads)
+	Chans    []ssa.Value // spawner-side roots of the channel(s) the result is sent on
+	Problems map[string]bool
+	Filter   map[string]bool // K2: an error lost
+	Excludes bool            // every send of the task result excludes context.Canceled
+	Unknown  string          // non-empty: could not classify something
+	Tasks    int
+	Sends    int
+	// runner workers: the context.WithCancel call(s) whose cancel is called, and
+	// whether the task received the context of that call
+	CancelOf map[*ssa.Call]bool
+	CtxOf    map[*ssa.Call]bool
+	CtxOther bool
 }
 
-// c12WorkerFlow checks, on every path of the goroutine body w.Fn:
-// the task (isTask) is called exactly once; exactly one send on a channel for
-// which isCh holds happens, after the task call; if cancel != nil, a call of
-// cancel (deferred or direct) happens after the task returned on every path
-// and never before the task call.
-func c12WorkerFlow(x *c12, w *c12Worker, isTask func(*ssa.Call) bool, isCh func(ssa.Value) bool, cancel ssa.Value) *c12WorkerResult {
-	res := &c12WorkerResult{}
-	probs := map[string]bool{}
-	isCancel := func(ci ssa.CallInstruction) bool {
-		if cancel == nil || ci.Common().IsInvoke() {
-			return false
-		}
-		return c12OnlyRoot(ci.Common().Value, w.Bind, cancel)
+func (x *c12) isCanceledGlobal(v xVal) bool {
+	if v.K != xAtom {
+		return false
 	}
+	u, ok := v.V.(*ssa.UnOp)
+	if !ok || u.Op != token.MUL {
+		return false
+	}
+	g, ok := u.X.(*ssa.Global)
+	return ok && g.Name() == "Canceled" && g.Pkg != nil && g.Pkg.Pkg.Path() == "context"
+}
+
+// errFacts decodes a branch as a fact about the error value recognised by isE:
+// (nilness, canceled) refinements in {c12Unk, c12Yes, c12No}.
+func (x *c12) errFacts(st *xState, cond xVal, truth bool, isE func(xVal) bool) (int, int) {
+	switch cond.K {
+	case xCmp:
+		if cond.Op != token.EQL && cond.Op != token.NEQ {
+			return c12Unk, c12Unk
+		}
+		a, b := *cond.X, *cond.Y
+		if !isE(a) {
+			a, b = b, a
+		}
+		if !isE(a) {
+			return c12Unk, c12Unk
+		}
+		eq := (cond.Op == token.EQL) == truth
+		if b.K == xNil {
+			if eq {
+				return c12Yes, c12No
+			}
+			return c12No, c12Unk
+		}
+		if x.isCanceledGlobal(b) {
+			if eq {
+				return c12No, c12Yes
+			}
+			return c12Unk, c12No
+		}
+	case xAtom:
+		call, ok := cond.V.(*ssa.Call)
+		if !ok || !callIs(call, "errors", "", "Is") || len(call.Call.Args) != 2 || cond.F == nil {
+			return c12Unk, c12Unk
+		}
+		a, b := st.EvalIn(cond.F, call.Call.Args[0]), st.EvalIn(cond.F, call.Call.Args[1])
+		if isE(a) && x.isCanceledGlobal(b) {
+			if truth {
+				return c12No, c12Yes
+			}
+			return c12Unk, c12No
+		}
+	}
+	return c12Unk, c12Unk
+}
+
+// elemLoads: every static root of v is a load of an element of the slice held
+// in field f; returns those loads.
+func (x *c12) elemLoads(st *xState, v xVal, f FieldID) ([]ssa.Value, bool) {
+	if v.K == xElem && v.Base != nil && v.Base.K == xField && v.Base.Fld == f && v.V != nil {
+		return []ssa.Value{v.V}, true
+	}
+	roots := st.Static(v)
+	if len(roots) == 0 {
+		return nil, false
+	}
+	for _, r := range roots {
+		if _, ok := c12ElemOfField(r, nil, f); !ok {
+			return nil, false
+		}
+	}
+	return roots, true
+}
+
+func (x *c12) withCancelOf(roots []ssa.Value, idx int) (*ssa.Call, bool) {
+	var call *ssa.Call
+	if len(roots) == 0 {
+		return nil, false
+	}
+	for _, r := range roots {
+		ex, ok := r.(*ssa.Extract)
+		if !ok || ex.Index != idx {
+			return nil, false
+		}
+		c, ok := ex.Tuple.(*ssa.Call)
+		if !ok || !callIs(c, "context", "", "WithCancel") || (call != nil && call != c) {
+			return nil, false
+		}
+		call = c
+	}
+	return call, true
+}
+
+// exploreWorker explores a goroutine body started by `site` (bind = its
+// arguments in the spawner). field: the slice field whose elements are tasks.
+//
+// oracle evaluates a spawner-side SSA value (a root of something the goroutine
+// uses: an argument of the go statement, a variable captured from an enclosing
+// helper, …) in the spawner's path state at the go statement.
+func (x *c12) exploreWorker(fn *ssa.Function, bind c12Bind, kind c12WorkerKind, field FieldID, oracle func(ssa.Value) xVal) *c12WorkerSum {
+	sum := &c12WorkerSum{Fn: fn, Name: FuncName(x.p, fn), Kind: kind, Problems: map[string]bool{}, Filter: map[string]bool{}, Excludes: true,
+		CancelOf: map[*ssa.Call]bool{}, CtxOf: map[*ssa.Call]bool{}}
 	const (
 		bCalled = 1 << 0
 		bSent1  = 1 << 1
 		bSent2  = 1 << 2
 		bCanc   = 1 << 3
-		bReg    = 1 << 4
+		shNil   = 4
+		shCan   = 6
 	)
-	seenTask, seenSend := map[*ssa.Call]bool{}, map[*ssa.Send]bool{}
-	fl := &c12Flow{Fn: w.Fn, Entry: 1,
-		Instr: func(in ssa.Instruction, replay bool, st uint64) uint64 {
-			switch v := in.(type) {
-			case *ssa.Defer:
-				if !isCancel(v) {
-					return st
-				}
-				if !replay {
-					return mapStates(st, func(s int) int { return s | bReg })
-				}
-				return mapStates(st, func(s int) int {
-					if s&bReg != 0 {
-						return s | bCanc
-					}
-					return s
-				})
-			case *ssa.Call:
-				if isCancel(v) {
-					return mapStates(st, func(s int) int {
-						if s&bCalled == 0 {
-							probs["cancel is called at "+x.pos(in)+" before the task was run: the shared context is cancelled although no runner has returned"] = true
-						}
-						return s | bCanc
-					})
-				}
-				if isTask(v) {
-					if !seenTask[v] {
-						seenTask[v] = true
-						res.Tasks = append(res.Tasks, v)
-					}
-					return mapStates(st, func(s int) int {
-						if s&bCalled != 0 {
-							probs["the task can be invoked twice by one goroutine (second call at "+x.pos(in)+")"] = true
-						}
-						if s&bCanc != 0 {
-							probs["the task is invoked at "+x.pos(in)+" after cancel was already called"] = true
-						}
-						return s | bCalled
-					})
-				}
-			case *ssa.Send:
-				if !isCh(v.Chan) {
-					return st
-				}
-				if !seenSend[v] {
-					seenSend[v] = true
-					res.Sends = append(res.Sends, v)
-				}
-				return mapStates(st, func(s int) int {
-					if s&bCalled == 0 {
-						probs["a result is sent at "+x.pos(in)+" before the task has returned (the collector counts a task as finished that is still running)"] = true
-					}
-					if s&bSent1 != 0 {
-						return s | bSent2
-					}
-					return s | bSent1
-				})
+	tasks := map[*ssa.Call]bool{}
+	taskVals := map[ssa.Value]bool{}
+	chans := map[ssa.Value]bool{}
+	isT := func(v xVal) bool {
+		if v.K != xAtom {
+			return false
+		}
+		c, ok := v.V.(*ssa.Call)
+		return ok && tasks[c]
+	}
+	isTask := func(st *xState, call *ssa.Call) bool {
+		if kind == wkInner {
+			return staticCallee(call) == x.rmRun
+		}
+		if call.Call.IsInvoke() {
+			return false
+		}
+		switch call.Call.Value.(type) {
+		case *ssa.Function, *ssa.Builtin, *ssa.MakeClosure:
+			return false
+		}
+		roots := st.Static(st.Eval(call.Call.Value))
+		if len(roots) == 0 {
+			return false
+		}
+		for _, r := range roots {
+			u, isLoad := r.(*ssa.UnOp)
+			if !isLoad || u.Op != token.MUL {
+				return false
 			}
-			return st
-		}}
-	fl.Run()
-	nRet := 0
-	fl.AtReturns(func(ret *ssa.Return, st uint64) {
-		nRet++
-		c12ForStates(st, func(s int) {
-			if s&bCalled == 0 {
-				probs["the goroutine can return at "+x.pos(ret)+" without having run its task"] = true
+			if _, isElem := u.X.(*ssa.IndexAddr); !isElem {
+				return false
 			}
-			if s&bSent1 == 0 {
-				probs["the goroutine can return at "+x.pos(ret)+" without sending a result: the collector waits forever (Run never returns)"] = true
-			}
-			if s&bSent2 != 0 {
-				probs["the goroutine can send two results on one path (return at "+x.pos(ret)+"): the collector stops one result early, Run returns while a task is still running and a later sender blocks forever"] = true
-			}
-			if cancel != nil && s&bCanc == 0 {
-				probs["the goroutine can return at "+x.pos(ret)+" without cancelling the shared context: the other runners are not stopped when this one returns"] = true
-			}
-		})
-	})
-	if nRet == 0 {
-		probs["the goroutine body has no reachable return"] = true
-	}
-	for m := range probs {
-		res.Problems = append(res.Problems, m)
-	}
-	sort.Strings(res.Problems)
-	return res
-}
-
-// c12Site is a group of spawn or receive sites with its symbolic count.
-type c12Tally struct {
-	Count    c12Count
-	Problems []string
-	Unknown  []string
-	// Doms: blocks/loops that every later return must be dominated by
-	Single []ssa.Instruction
-	Loops  []*c12Loop
-}
-
-// c12TallySites adds up how often the given instructions execute in fn:
-// once for a site outside any cycle, Trips for a counted loop containing
-// exactly one site per iteration.
-func c12TallySites(x *c12, fn *ssa.Function, sites []ssa.Instruction, what string) *c12Tally {
-	t := &c12Tally{}
-	loops := c12Loops(fn)
-	isSite := map[ssa.Instruction]bool{}
-	for _, s := range sites {
-		isSite[s] = true
-	}
-	done := map[*c12Loop]bool{}
-	for _, s := range sites {
-		l := c12LoopOf(loops, s.Block())
-		if l != nil && s.Block() == l.Header {
-			t.Unknown = append(t.Unknown, what+" at "+x.pos(s)+" sits in a loop header")
-			continue
-		}
-		if l == nil {
-			if c12InAnyCycle(s.Block()) {
-				t.Unknown = append(t.Unknown, what+" at "+x.pos(s)+" sits in a loop that is not a counted loop over len(field)")
-				continue
-			}
-			t.Count.K++
-			t.Single = append(t.Single, s)
-			continue
-		}
-		if done[l] {
-			continue
-		}
-		done[l] = true
-		if l.LenField == (FieldID{}) {
-			t.Unknown = append(t.Unknown, what+" loop at "+x.pos(l.If)+" is not bounded by the length of a struct field")
-			continue
-		}
-		if l.Problem != "" {
-			t.Problems = append(t.Problems, what+" loop at "+x.pos(l.If)+": "+l.Problem)
-		}
-		per := c12PerIteration(fn, l, func(in ssa.Instruction) bool { return isSite[in] })
-		if per != 1<<1 {
-			t.Problems = append(t.Problems, fmt.Sprintf("%s loop at %s: an iteration executes %s %s instead of exactly one", what, x.pos(l.If), c12SetString(per), what))
-		}
-		if t.Count.Coef != 0 && t.Count.Field != l.LenField {
-			t.Unknown = append(t.Unknown, what+" loops range over different fields")
-			continue
-		}
-		t.Count.Field = l.LenField
-		t.Count.Coef++
-		t.Count.K += l.Off - l.First
-		t.Loops = append(t.Loops, l)
-	}
-	return t
-}
-
-func c12SetString(st uint64) string {
-	s := ""
-	for i, n := range []string{"0", "1", "2 or more"} {
-		if st&(1<<uint(i)) != 0 {
-			if s != "" {
-				s += " or "
-			}
-			s += n
-		}
-	}
-	if s == "" {
-		return "no"
-	}
-	return s
-}
-
-// c12CheckCounts implements the count rule for fn: sum of spawns of workers
-// sending on ch == sum of receives on ch, and every return reachable from a
-// spawn is dominated by all receives.
-func c12CheckCounts(x *c12, fn *ssa.Function, rule, construct string, spawns []*ssa.Go, recvs []*ssa.UnOp) (spawnT, recvT *c12Tally, ok bool) {
-	r := x.r
-	var si, ri []ssa.Instruction
-	for _, g := range spawns {
-		si = append(si, g)
-	}
-	for _, u := range recvs {
-		ri = append(ri, u)
-	}
-	spawnT = c12TallySites(x, fn, si, "go statement")
-	recvT = c12TallySites(x, fn, ri, "receive")
-	if un := append(append([]string{}, spawnT.Unknown...), recvT.Unknown...); len(un) > 0 {
-		r.Undecide("%s: cannot count goroutines/results: %s", construct, un[0])
-		return spawnT, recvT, false
-	}
-	var bad []string
-	bad = append(bad, spawnT.Problems...)
-	bad = append(bad, recvT.Problems...)
-	if spawnT.Count != recvT.Count {
-		if spawnT.Count.Coef == recvT.Count.Coef && (spawnT.Count.Coef == 0 || spawnT.Count.Field == recvT.Count.Field) {
-			more := "Run waits forever for a result nobody sends"
-			if recvT.Count.K < spawnT.Count.K {
-				more = "Run returns while a goroutine is still running, and that goroutine blocks forever on its send"
-			}
-			bad = append(bad, fmt.Sprintf("%s goroutines are started but %s results are collected: %s", spawnT.Count, recvT.Count, more))
-		} else {
-			r.Undecide("%s: goroutines started (%s) and results collected (%s) are counted over different fields", construct, spawnT.Count, recvT.Count)
-			return spawnT, recvT, false
-		}
-	}
-	// returns after a spawn must follow the whole collection
-	for _, ret := range c12Returns(fn) {
-		reach := false
-		for _, g := range spawns {
-			if c12Reaches(g.Block(), ret.Block()) {
-				reach = true
+			ev := oracle(r)
+			if !(ev.K == xElem && ev.Base != nil && ev.Base.K == xField && ev.Base.Fld == field) {
+				return false
 			}
 		}
-		if !reach {
-			continue
+		for _, l := range roots {
+			taskVals[l] = true
 		}
-		for _, s := range recvT.Single {
-			if !instrDominates(s, ret) {
-				bad = append(bad, "the return at "+x.pos(ret)+" can be reached after goroutines were started without passing the receive at "+x.pos(s)+": Run returns before all have returned")
-			}
+		return true
+	}
+	// resolve: spawner-side meaning of a value used in the goroutine
+	resolve := func(st *xState, v ssa.Value) []xVal {
+		var out []xVal
+		for _, r := range st.Static(st.EvalIn(st.fr, v)) {
+			out = append(out, oracle(r))
 		}
-		for _, l := range recvT.Loops {
-			if l.Blocks[ret.Block()] || !l.Header.Dominates(ret.Block()) {
-				bad = append(bad, "the return at "+x.pos(ret)+" can be reached after goroutines were started without completing the collection loop at "+x.pos(l.If)+": Run returns before all have returned")
+		return out
+	}
+	wcOf := func(vals []xVal, idx int) (*ssa.Call, bool) {
+		var roots []ssa.Value
+		for _, v := range vals {
+			if v.K != xAtom || v.V == nil {
+				return nil, false
 			}
+			roots = append(roots, v.V)
 		}
+		return x.withCancelOf(roots, idx)
 	}
-	sort.Strings(bad)
-	msg := ""
-	if len(bad) > 0 {
-		msg = bad[0]
+	isCancel := func(st *xState, ci ssa.CallInstruction) (*ssa.Call, bool) {
+		if kind != wkRunner || ci.Common().IsInvoke() {
+			return nil, false
+		}
+		switch ci.Common().Value.(type) {
+		case *ssa.Function, *ssa.Builtin:
+			return nil, false
+		}
+		return wcOf(resolve(st, ci.Common().Value), 1)
 	}
-	pos := x.p.Pos(fn.Pos())
-	if len(recvs) > 0 {
-		pos = x.pos(recvs[len(recvs)-1])
-	}
-	return spawnT, recvT, r.Check(len(bad) == 0, rule, construct, pos,
-		fmt.Sprintf("%s goroutines started, %s results collected, every return after a spawn follows the collection", spawnT.Count, recvT.Count), msg, bad...)
-}
-
-// c12Collector analyses what happens to the value received by recv in fn:
-// on every path until the next execution of recv / a return, the value is
-// either stored into memory that reaches errors.Join, or was found nil (or,
-// if filterAllowed, found to be context.Canceled). If needExclude, a value
-// that may be Canceled must not be stored. Returns problems and Join calls.
-func c12Collector(x *c12, fn *ssa.Function, recv *ssa.UnOp, filterAllowed, needExclude bool) (problems []string, joins []*ssa.Call) {
-	probs := map[string]bool{}
-	joinSet := map[*ssa.Call]bool{}
-	isE := func(v ssa.Value) bool { return v == ssa.Value(recv) || c12OnlyRoot(v, nil, recv) }
-	enc := func(n, c, app int) int { return 1 + (n*3+c)*2 + app }
-	dec := func(s int) (n, c, app int) { s--; return (s / 2) / 3, (s / 2) % 3, s % 2 }
-	verify := func(st uint64, where string) {
-		c12ForStates(st, func(s int) {
-			if s == 0 {
-				return
-			}
-			n, c, app := dec(s)
-			if app == 1 {
-				if needExclude && !(c == c12No || n == c12Yes) {
-					probs["a result that may be context.Canceled is joined into the returned error ("+where+"): neither the goroutine nor the collector excludes it"] = true
-				}
-				return
-			}
-			if n == c12Yes || (filterAllowed && c == c12Yes) {
-				return
-			}
-			probs["a collected result that is not known to be nil"+map[bool]string{true: " or context.Canceled", false: ""}[filterAllowed]+" does not reach errors.Join ("+where+"): that error is missing from the returned error"] = true
-		})
-	}
-	fl := &c12Flow{Fn: fn, Entry: 1,
-		Instr: func(in ssa.Instruction, replay bool, st uint64) uint64 {
-			if in == ssa.Instruction(recv) {
-				verify(st, "before the next receive at "+x.pos(in))
-				return 1 << uint(enc(c12Unk, c12Unk, 0))
-			}
-			if s, ok := in.(*ssa.Store); ok && isE(s.Val) {
-				if base := c12StoreBase(s); base != nil {
-					js := c12ReachesJoin(base)
-					if len(js) > 0 {
-						for _, j := range js {
-							joinSet[j] = true
-						}
-						return mapStates(st, func(s int) int {
-							if s == 0 {
-								return 0
-							}
-							n, c, _ := dec(s)
-							return enc(n, c, 1)
-						})
-					}
-				}
-			}
-			return st
-		},
-		Edge: func(from, to *ssa.BasicBlock, st uint64) uint64 {
-			fnil, fcan := c12ErrFact(from, to, isE, nil)
-			if fnil == c12Unk && fcan == c12Unk {
-				return st
-			}
-			var out uint64
-			c12ForStates(st, func(s int) {
-				if s == 0 {
-					out |= 1
-					return
-				}
-				n, c, app := dec(s)
-				if n2, c2, ok := c12Refine(n, c, fnil, fcan); ok {
-					out |= 1 << uint(enc(n2, c2, app))
-				}
-			})
-			return out
-		}}
-	fl.Run()
-	fl.AtReturns(func(ret *ssa.Return, st uint64) { verify(st, "return at "+x.pos(ret)) })
-	for m := range probs {
-		problems = append(problems, m)
-	}
-	sort.Strings(problems)
-	for j := range joinSet {
-		joins = append(joins, j)
-	}
-	return
-}
-
-// c12SenderFilter analyses the sends of a runner goroutine w.r.t. the task
-// result T: returns problems (an error lost) and whether every send of T
-// excludes Canceled.
-func c12SenderFilter(x *c12, w *c12Worker, task *ssa.Call, sends []*ssa.Send) (problems []string, excludes bool, undecided string) {
-	probs := map[string]bool{}
-	excludes = true
-	isE := func(v ssa.Value) bool { return c12OnlyRoot(v, w.Bind, task) }
-	isSend := map[ssa.Instruction]bool{}
-	for _, s := range sends {
-		isSend[s] = true
-	}
-	fl := &c12Flow{Fn: w.Fn, Entry: 1 << 0,
-		Instr: func(in ssa.Instruction, replay bool, st uint64) uint64 {
-			if in == ssa.Instruction(task) {
-				return 1 << 0
-			}
-			if !isSend[in] {
-				return st
-			}
-			val := in.(*ssa.Send).X
-			switch {
-			case c12AllNil(val, w.Bind):
-				c12ForStates(st, func(s int) {
-					n, c := s/3, s%3
-					if !(n == c12Yes || c == c12Yes) {
-						probs["nil is sent at "+x.pos(in)+" on a path where the runner's error is not known to be nil or context.Canceled: a genuine error is missing from Run's result"] = true
-					}
-				})
-			case isE(val):
-				c12ForStates(st, func(s int) {
-					n, c := s/3, s%3
-					if !(n == c12Yes || c == c12No) {
-						excludes = false
-					}
-				})
-			default:
-				undecided = "the value sent at " + x.pos(in) + " is neither the runner's result nor nil"
-			}
-			return st
-		},
-		Edge: func(from, to *ssa.BasicBlock, st uint64) uint64 {
-			fnil, fcan := c12ErrFact(from, to, isE, w.Bind)
-			if fnil == c12Unk && fcan == c12Unk {
-				return st
-			}
-			var out uint64
-			c12ForStates(st, func(s int) {
-				if n2, c2, ok := c12Refine(s/3, s%3, fnil, fcan); ok {
-					out |= 1 << uint(n2*3+c2)
-				}
-			})
-			return out
-		}}
-	fl.Run()
-	for m := range probs {
-		problems = append(problems, m)
-	}
-	sort.Strings(problems)
-	return
-}
-
-// c12JoinReturned: every return of fn reachable from `after` returns (only) the
-// result of one of the join calls, possibly through a field it was stored in.
-func c12JoinReturned(x *c12, fn *ssa.Function, after []*ssa.Go, joins []*ssa.Call, via FieldID) string {
-	isJoin := func(v ssa.Value) bool {
-		for _, j := range joins {
-			if v == ssa.Value(j) {
+	cl := &xClient{NoInline: x.noInline}
+	cl.OnInstr = func(st *xState, in ssa.Instruction, replay bool) bool {
+		switch v := in.(type) {
+		case *ssa.Defer:
+			if !replay {
 				return true
 			}
-		}
-		return false
-	}
-	nilReturns, joinReturns := 0, 0
-	defer func() {
-		if nilReturns > 0 && joinReturns > 0 {
-			x.r.Undecide("%s returns nil on some path after the goroutines were started and errors.Join on others: the guard of the nil return is not analysed", FuncName(x.p, fn))
-		}
-	}()
-	for _, ret := range c12Returns(fn) {
-		reach := false
-		for _, g := range after {
-			if c12Reaches(g.Block(), ret.Block()) {
-				reach = true
+			if wc, ok := isCancel(st, v); ok {
+				sum.CancelOf[wc] = true
+				st.Client |= bCanc
 			}
-		}
-		if !reach {
-			continue
-		}
-		roots := c12ReturnRoots(ret, 0)
-		var flat []ssa.Value
-		for _, root := range roots {
-			if id, _, ok := fieldOfValue(root); ok && via != (FieldID{}) && id == via {
-				n := 0
-				allInstrs(fn, func(in ssa.Instruction) {
-					if s, ok := in.(*ssa.Store); ok {
-						if fa, ok := s.Addr.(*ssa.FieldAddr); ok && fieldIDOfAddr(fa) == via {
-							flat = append(flat, c12Roots(s.Val, nil)...)
-							n++
+		case *ssa.Call:
+			if wc, ok := isCancel(st, v); ok {
+				sum.CancelOf[wc] = true
+				if st.Client&bCalled == 0 {
+					sum.Problems["cancel is called at "+x.pos(in)+" before the runner was run: the shared context is cancelled although no runner has returned"] = true
+				}
+				st.Client |= bCanc
+				return true
+			}
+			if isTask(st, v) {
+				tasks[v] = true
+				if st.Client&bCalled != 0 {
+					sum.Problems["the task can be invoked twice by one goroutine (second call at "+x.pos(in)+")"] = true
+				}
+				if st.Client&bCanc != 0 {
+					sum.Problems["the task is invoked at "+x.pos(in)+" after cancel was already called"] = true
+				}
+				if kind == wkRunner {
+					ok := false
+					if len(v.Call.Args) >= 1 {
+						vals := resolve(st, v.Call.Args[0])
+						if wc, isWC := wcOf(vals, 0); isWC {
+							sum.CtxOf[wc] = true
+							ok = true
+						} else {
+							// several roots (a re-assigned ctx variable): accept if one is derived
+							for _, one := range vals {
+								if wc, isWC := wcOf([]xVal{one}, 0); isWC {
+									sum.CtxOf[wc] = true
+									ok = true
+								}
+							}
 						}
 					}
-				})
-				if n == 0 {
-					return "the return at " + x.pos(ret) + " returns " + via.String() + ", which Run never assigns"
-				}
-				continue
-			}
-			flat = append(flat, root)
-		}
-		if len(flat) == 0 {
-			return "the return at " + x.pos(ret) + " has no result"
-		}
-		allNil := true
-		for _, v := range flat {
-			if !isNilConst(v) {
-				allNil = false
-			}
-		}
-		if allNil {
-			// `if len(errs) == 0 { return nil }` is equivalent to returning the
-			// Join of nothing; whether the guard really means "nothing was
-			// collected" is not decided here.
-			empty := false
-			for _, dc := range domConds(ret.Block()) {
-				if cmp, ok := decodeCond(dc.If.Cond, dc.Branch); ok && cmp.Op == token.EQL {
-					a, b := cmp.X, cmp.Y
-					if _, isC := c12ConstInt(a); isC {
-						a, b = b, a
-					}
-					if k, isC := c12ConstInt(b); isC && k == 0 {
-						if sv, off, isLen := c12LenExpr(a); isLen && off == 0 && len(c12ReachesJoin(sv)) > 0 {
-							empty = true // the slice given to Join is empty: Join would return nil too
-						}
+					if !ok {
+						sum.CtxOther = true
 					}
 				}
+				st.Client |= bCalled
+				st.Client &^= 3<<shNil | 3<<shCan
 			}
-			if !empty {
-				nilReturns++
+		case *ssa.Send:
+			roots := st.Static(st.Eval(v.Chan))
+			if len(roots) == 0 {
+				sum.Unknown = "cannot identify the channel of the send at " + x.pos(in)
+				return true
 			}
-			continue
+			for _, r := range roots {
+				chans[r] = true
+			}
+			if st.Client&bCalled == 0 {
+				sum.Problems["a result is sent at "+x.pos(in)+" before the task has returned (the collector counts a task as finished that is still running)"] = true
+			}
+			if st.Client&bSent1 != 0 {
+				st.Client |= bSent2
+			}
+			st.Client |= bSent1
+			val := st.Eval(v.X)
+			n, c := int(st.Client>>shNil)&3, int(st.Client>>shCan)&3
+			switch {
+			case val.K == xNil:
+				if kind == wkRunner {
+					if !(n == c12Yes || c == c12Yes) && st.Client&bCalled != 0 {
+						sum.Filter["nil is sent at "+x.pos(in)+" on a path where the runner's error is not known to be nil or context.Canceled: a genuine error is missing from Run's result"] = true
+					}
+				} else if !(n == c12Yes) {
+					sum.Problems["nil is sent at "+x.pos(in)+" instead of the task's own result: that error is lost"] = true
+				}
+			case isT(val):
+				if !(n == c12Yes || c == c12No) {
+					sum.Excludes = false
+				}
+			default:
+				if kind == wkRunner {
+					sum.Unknown = "the value sent at " + x.pos(in) + " is neither the runner's result nor nil"
+				} else {
+					sum.Problems["the value sent at "+x.pos(in)+" is not the task's own result: that error is lost"] = true
+				}
+			}
 		}
-		joinReturns++
-		for _, v := range flat {
-			if !isJoin(v) && !isNilConst(v) {
-				return "the return at " + x.pos(ret) + " does not (only) return the errors.Join of the collected results"
-			}
+		return true
+	}
+	cl.OnBranch = func(st *xState, ifi *ssa.If, cond xVal, truth bool) bool {
+		fn, fc := x.errFacts(st, cond, truth, isT)
+		if fn == c12Unk && fc == c12Unk {
+			return true
+		}
+		n, c := int(st.Client>>shNil)&3, int(st.Client>>shCan)&3
+		n2, c2, ok := c12Refine(n, c, fn, fc)
+		if !ok {
+			return false
+		}
+		st.Client &^= 3<<shNil | 3<<shCan
+		st.Client |= uint64(n2)<<shNil | uint64(c2)<<shCan
+		return true
+	}
+	nRet := 0
+	cl.OnReturn = func(st *xState, ret *ssa.Return, _ []xVal) {
+		nRet++
+		if st.Client&bCalled == 0 {
+			sum.Problems["the goroutine can return at "+x.pos(ret)+" without having run its task"] = true
+		}
+		if st.Client&bSent1 == 0 {
+			sum.Problems["the goroutine can return at "+x.pos(ret)+" without sending a result: the collector waits forever (Run never returns)"] = true
+		}
+		if st.Client&bSent2 != 0 {
+			sum.Problems["the goroutine can send two results on one path (return at "+x.pos(ret)+"): the collector stops one result early, Run returns while a task is still running and a later sender blocks forever"] = true
+		}
+		if kind == wkRunner && st.Client&bCanc == 0 {
+			sum.Problems["the goroutine can return at "+x.pos(ret)+" without cancelling the shared context: the other runners are not stopped when this one returns"] = true
 		}
 	}
-	if joinReturns == 0 {
-		return "no return after the goroutines were started returns the errors.Join of the collected results"
+	ex := newXplorer(x.p, x.ssaPkg, cl)
+	ex.Explore(fn, bind, 0)
+	if ex.Overflow {
+		sum.Unknown = "path exploration of " + sum.Name + " exceeded its budget"
 	}
-	return ""
+	if nRet == 0 && sum.Unknown == "" {
+		sum.Problems["the goroutine body has no reachable return"] = true
+	}
+	sum.Tasks = len(tasks)
+	for v := range taskVals {
+		sum.TaskVals = append(sum.TaskVals, v)
+	}
+	for v := range chans {
+		sum.Chans = append(sum.Chans, v)
+	}
+	sort.Slice(sum.TaskVals, func(i, j int) bool { return sum.TaskVals[i].Pos() < sum.TaskVals[j].Pos() })
+	sort.Slice(sum.Chans, func(i, j int) bool { return sum.Chans[i].Pos() < sum.Chans[j].Pos() })
+	return sum
 }
 
-var _ = token.NoPos
+// evalSpawnerSide evaluates, in the spawner's current path state, an SSA value
+// that belongs to one of the functions on the frame chain — or to the body of
+// the goroutine being started by g (then its parameters are bound to g's
+// arguments as evaluated now).
+func evalSpawnerSide(st *xState, v ssa.Value, g ssa.CallInstruction) xVal {
+	type hasParent interface{ Parent() *ssa.Function }
+	var owner *ssa.Function
+	if hp, ok := v.(hasParent); ok {
+		owner = hp.Parent()
+	}
+	for f := st.fr; f != nil; f = f.parent {
+		if owner == nil || f.fn == owner {
+			return st.EvalIn(f, v)
+		}
+	}
+	if g != nil && owner != nil {
+		callee, closure := st.x.calleeOf(st, st.fr, g.Common())
+		if callee == owner {
+			nf := st.x.frame(st.fr, callee, g, "spawn")
+			nf.closure = closure
+			tmp := st.clone()
+			for i, pa := range callee.Params {
+				if i < len(g.Common().Args) {
+					tmp.set(nf, pa, st.Eval(g.Common().Args[i]))
+				}
+			}
+			return tmp.EvalIn(nf, v)
+		}
+	}
+	return st.Eval(v)
+}
+
+// sameChan: a spawner-side root of a worker's channel denotes channel ch.
+func sameChan(st *xState, roots []ssa.Value, ch xVal) bool {
+	if len(roots) == 0 {
+		return false
+	}
+	for _, r := range roots {
+		ev := evalSpawnerSide(st, r, nil)
+		if !(ev.K == xAtom && ch.K == xAtom && ev.V == ch.V) {
+			return false
+		}
+	}
+	return true
+}
